@@ -31,19 +31,36 @@ type DynCtxt = dyn ErasedCtxt + Send + Sync;
 
 /// A context whose frames are too large for `ErasedFrame`'s inline storage.
 struct Padded<C>(C);
-struct PaddedFrame<F>(F, #[allow(dead_code)] [u64; 4]);
+struct PaddedFrame<F>(F, #[allow(dead_code)] [u64; 4], #[allow(dead_code)] Live);
+
+/// Counts the padded (boxed-when-erased) frames that exist: every one of them must be gone when a
+/// program is over, whichever way it was disposed of (close, Drop of the erased frame, a dropped
+/// future) - otherwise something leaked.
+static LIVE: std::sync::atomic::AtomicI64 = std::sync::atomic::AtomicI64::new(0);
+struct Live;
+impl Live {
+    fn new() -> Live {
+        LIVE.fetch_add(1, Ordering::SeqCst);
+        Live
+    }
+}
+impl Drop for Live {
+    fn drop(&mut self) {
+        LIVE.fetch_sub(1, Ordering::SeqCst);
+    }
+}
 
 impl<C: Ctxt> Ctxt for Padded<C> {
     type Current = C::Current;
     type Frame = PaddedFrame<C::Frame>;
     fn open_root<P: Props>(&self, props: P) -> Self::Frame {
-        PaddedFrame(self.0.open_root(props), [7; 4])
+        PaddedFrame(self.0.open_root(props), [7; 4], Live::new())
     }
     fn open_push<P: Props>(&self, props: P) -> Self::Frame {
-        PaddedFrame(self.0.open_push(props), [7; 4])
+        PaddedFrame(self.0.open_push(props), [7; 4], Live::new())
     }
     fn open_disabled<P: Props>(&self, props: P) -> Self::Frame {
-        PaddedFrame(self.0.open_disabled(props), [7; 4])
+        PaddedFrame(self.0.open_disabled(props), [7; 4], Live::new())
     }
     fn enter(&self, frame: &mut Self::Frame) {
         self.0.enter(&mut frame.0)
@@ -296,8 +313,18 @@ impl Machine for M03 {
                     AnyFrame::Bx(x) => x.with(|p| read_props(p, nk)),
                     AnyFrame::Ar(x) => x.with(|p| read_props(p, nk)),
                 };
+                // Frame::inner: what the idle frame object itself stores (level B's `held`; NoTrace says
+                // it is the frame's own properties) - where the raw frame type can be read
+                let inner = match &fr {
+                    AnyFrame::Plain(x) => read_props(x.inner(), nk),
+                    AnyFrame::Ref(x) => read_props(x.inner(), nk),
+                    AnyFrame::Opt(x) => read_props(x.inner(), nk),
+                    AnyFrame::Bx(x) => read_props(x.inner(), nk),
+                    AnyFrame::Ar(x) => read_props(x.inner(), nk),
+                    AnyFrame::Dyn(_) => sees.clone(),
+                };
                 self.put_frame(f, fr);
-                reply(json!({"sees": sees, "sees_after_panic": again}));
+                reply(json!({"sees": sees, "sees_after_panic": again, "inner": inner}));
                 None
             }
             "enter" => {
@@ -341,6 +368,41 @@ impl Machine for M03 {
                         None
                     }
                 }
+            }
+            "discard" => {
+                let f = step["f"].as_u64().unwrap();
+                fn dispose<C: Ctxt>(fr: Frame<C>, how: u64) {
+                    match how % 3 {
+                        0 => drop(fr),                       // Frame::drop -> Ctxt::close
+                        1 => {
+                            let (c, inner) = fr.into_parts();
+                            drop(inner);                     // the raw frame's own Drop (ErasedFrame: vdrop)
+                            drop(c);
+                        }
+                        _ => {
+                            let (c, inner) = fr.into_parts();
+                            c.close(inner);                  // closed by hand
+                        }
+                    }
+                }
+                let how = salt / 7 + f;
+                match self.take_frame(f) {
+                    AnyFrame::Plain(x) => dispose(x, how),
+                    AnyFrame::Ref(x) => dispose(x, how),
+                    AnyFrame::Dyn(x) => dispose(x, how),
+                    AnyFrame::Opt(x) => dispose(x, how),
+                    AnyFrame::Bx(x) => dispose(x, how),
+                    AnyFrame::Ar(x) => dispose(x, how),
+                }
+                reply_ok();
+                None
+            }
+            "droptask" => {
+                let k = step["k"].as_u64().unwrap();
+                let task = self.tasks.lock().unwrap().remove(&k).unwrap_or_else(|| tool_error("task is not idle"));
+                drop(task);
+                reply_ok();
+                None
             }
             "spawn" => {
                 let f = step["f"].as_u64().unwrap();
@@ -501,6 +563,7 @@ fn main() {
             m.salt.store(no as u64, Ordering::Relaxed);
             m.frames.lock().unwrap().clear();
             m.tasks.lock().unwrap().clear();
+            LIVE.store(0, Ordering::SeqCst);
             let steps = case["steps"].as_array().unwrap_or_else(|| tool_error("case without steps"));
             let nthreads = steps[0]["exp"].as_array().map(|a| a.len()).unwrap_or(1);
             NKEYS.store(m.nkeys(&steps[0]) as u64, Ordering::Relaxed);
@@ -516,6 +579,10 @@ fn main() {
                 if op == "with" && rep["sees"] != step["sees"] {
                     return Some(json!({"what": "Frame::with shows other properties than the frame's",
                         "detail": {"want": step["sees"], "got": rep["sees"]}}));
+                }
+                if op == "with" && rep["inner"] != step["sees"] {
+                    return Some(json!({"what": "an idle frame does not store its own properties (Frame::inner)",
+                        "detail": {"want": step["sees"], "got": rep["inner"]}}));
                 }
                 if op == "with" && rep["sees_after_panic"] != step["sees"] {
                     return Some(json!({"what": "a panic caught inside a Frame::with callback changed the frame's properties",
@@ -556,6 +623,16 @@ fn main() {
             // frames still in the table are closed here, tasks dropped
             m.frames.lock().unwrap().clear();
             m.tasks.lock().unwrap().clear();
+            let mut o = o;
+            // every model thread has exited (unless one hung): no padded frame may be left
+            let live = LIVE.load(Ordering::SeqCst);
+            if o.mismatch.is_none() && live != 0 {
+                o.mismatch = Some(json!({"step": steps.len().saturating_sub(1), "what": "a frame was leaked (it still exists after the program disposed of every frame and task)",
+                    "detail": {"live_padded_frames": live}}));
+            }
+            if live != 0 {
+                LIVE.store(0, Ordering::SeqCst);
+            }
             o
         },
     );
